@@ -2,6 +2,8 @@
 
 
 def replay(rec):
+    if rec.get("rust"):
+        return replay_rust(rec)
     from pce500.keyboard_matrix import KeyboardMatrix, KEY_LOCATIONS, MatrixEvent, FIFO_SIZE
 
     mdl = rec["model"]
@@ -108,3 +110,142 @@ def replay(rec):
     if op == "press_release":
         return True
     return False
+
+
+def replay_rust(rec):
+    """Native run of the real Rust KeyboardMatrix (replay binary, state via the public snapshot API) against a plain-Python
+    reference of the keyboard rules (same rules as above; ring with explicit count; KEYI gating)."""
+    from engines.rsym import build
+    from pce500.keyboard_matrix import KEY_LOCATIONS
+
+    I = {int(k): int(v) for k, v in rec["inputs"].items()}
+    op, pair, ah = rec["op"], rec["pair"], rec["active_high"]
+    r = build.run_replay("harness_kb_native", I, {})
+    out = r["out"]
+    g = lambda i: I.get(i, 0)  # noqa: E731
+    word = (g(420) & 0xFF) | ((g(421) & 0xFF) << 8)
+    thr_p, thr_r, rdelay, rint, rep_en = g(423) & 0xFF, g(424) & 0xFF, g(425) & 0xFF, g(426) & 0xFF, g(427) & 1
+    ks = []
+    for i, name in enumerate(pair):
+        loc = KEY_LOCATIONS[name]
+        b = 400 + 8 * i
+        ks.append(dict(col=loc.column, row=loc.row, code=(loc.column << 3) | loc.row, pressed=bool(g(b) & 1), deb=bool(g(b + 1) & 1), pt=g(b + 2) & 0xFF, rt=g(b + 3) & 0xFF, rp=g(b + 4) & 0xFF))
+    count = min(g(430), 8)
+    head = min(g(431), 7)
+    ring = [g(440 + ((head + j) % 8)) & 0xFF for j in range(count)]
+    irq, isr = g(433), g(434) & 0xFF
+    keyi = count > 0
+
+    def strobed(w, col):
+        bit = (w >> col) & 1
+        return bit == 1 if ah else bit == 0
+
+    def enqueue(b):
+        if len(ring) == 8:
+            ring.pop(0)
+        ring.append(b)
+
+    def kil(w, pred):
+        v = 0
+        for k in ks:
+            if strobed(w, k["col"]) and pred(k):
+                v |= 1 << k["row"]
+        return v
+
+    mism = []
+    want_ret = None
+    kil_latch = None
+    a1, a2, a3 = g(451), g(452), g(453)
+    if op == "scan_tick":
+        n = 0
+        for k in sorted(ks, key=lambda k: k["code"]):
+            act = k["pressed"] and strobed(word, k["col"])
+            if act:
+                if not k["deb"]:
+                    k["pt"] = min(k["pt"] + 1, 255)
+                    if k["pt"] >= thr_p:
+                        k.update(deb=True, pt=thr_p, rt=0, rp=rdelay)
+                        enqueue(k["code"]); n += 1
+                else:
+                    k["rt"] = 0
+                    if rep_en:
+                        k["rp"] = max(k["rp"] - 1, 0)
+                        if k["rp"] == 0:
+                            k["rp"] = rint
+                            enqueue(k["code"]); n += 1
+            else:
+                k["pt"] = 0
+                if k["deb"]:
+                    k["rt"] = min(k["rt"] + 1, 255)
+                    if k["rt"] >= thr_r:
+                        k.update(deb=False, rt=0, rp=0)
+                        enqueue(k["code"] | 0x80); n += 1
+            if not k["pressed"] and not k["deb"]:
+                k["rp"] = 0
+        want_ret = n
+        if a1 & 1:
+            irq += n
+            if n:
+                keyi = True
+        if not ring:
+            keyi = False
+        kil_latch = kil(word, lambda k: k["deb"])
+    elif op == "read_kil":
+        got = out.get(1, 0x100)
+        for row in range(8):
+            bit = (got >> row) & 1
+            may = any(k["row"] == row and strobed(word, k["col"]) and (k["pressed"] or k["deb"]) for k in ks)
+            must = any(k["row"] == row and strobed(word, k["col"]) and k["pressed"] and k["deb"] for k in ks)
+            if got > 0xFF or (bit and not may) or (must and not bit):
+                mism.append(f"KIL read {got:#x}: row {row} bit {bit} may={may} must={must}")
+        print("rust read_kil", hex(got), mism)
+        return bool(mism)
+    elif op == "read_other":
+        want_ret = {0xF0: word & 0xFF, 0xF1: word >> 8}.get(a1 & 0xFF, 0x100)
+    elif op in ("write_kol", "write_koh"):
+        word = (word & 0xFF00) | (a2 & 0xFF) if op == "write_kol" else (word & 0xFF) | ((a2 & 0xFF) << 8)
+        kil_latch = kil(word, lambda k: k["deb"])
+        want_ret = 1
+    elif op == "press":
+        ks[0].update(pressed=True, pt=0, rt=0, rp=rdelay)
+    elif op == "release":
+        ks[0].update(pressed=False, rt=0)
+    elif op.startswith("inject"):
+        enqueue((a1 & 0x7F) | (0x80 if a2 & 1 else 0))
+        irq += 1
+        keyi = True
+        if a3 & 1:
+            isr |= 4
+        want_ret = 1
+    elif op == "write_fifo":
+        if (a1 & 1) and keyi and ring:
+            isr |= 4
+    if want_ret is not None and out.get(1) != want_ret:
+        mism.append(f"return {out.get(1)} want {want_ret}")
+    if op not in ("press", "release") and not op.startswith("inject"):
+        for i, k in enumerate(ks):
+            got = dict(pressed=bool(out.get(100 + 8 * i)), deb=bool(out.get(101 + 8 * i)), pt=out.get(102 + 8 * i), rt=out.get(103 + 8 * i), rp=out.get(104 + 8 * i))
+            want = {f: k[f] for f in got}
+            if got != want:
+                mism.append(f"key{i} got {got} want {want}")
+    elif op in ("press", "release"):
+        for i, k in enumerate(ks):
+            got = dict(pressed=bool(out.get(100 + 8 * i)), deb=bool(out.get(101 + 8 * i)))
+            want = {f: k[f] for f in got}
+            if got != want:
+                mism.append(f"key{i} got {got} want {want}")
+    fifo = [out[20 + j] for j in range(8) if 20 + j in out]
+    if fifo != ring or out.get(4) != len(ring):
+        mism.append(f"fifo {fifo} (len {out.get(4)}) want {ring}")
+    if out.get(3) != irq & 0xFFFFFFFF:
+        mism.append(f"irq_count {out.get(3)} want {irq}")
+    if out.get(2) != isr:
+        mism.append(f"ISR {out.get(2)} want {isr}")
+    if kil_latch is not None and out.get(7) != kil_latch:
+        mism.append(f"KIL latch {out.get(7)} want {kil_latch}")
+    if out.get(8) != word & 0xFF or out.get(9) != word >> 8:
+        mism.append(f"KOL/KOH {out.get(8)},{out.get(9)} want {word & 0xFF},{word >> 8}")
+    if op in ("scan_tick", "write_fifo") and bool(out.get(10, 0) & 4) != (keyi and bool(ring)):
+        mism.append(f"KEYI probe {out.get(10)} want {keyi and bool(ring)}")
+    print("rust", op, pair, "mismatches", mism)
+    return bool(mism)
